@@ -177,7 +177,8 @@ class FakeTransport(asyncio.Transport):
         self.out = NativeBuf()
         self.writes: List[Tuple[float, int]] = []  # (virtual time, length)
         self.closing = False
-        self.closed_at: Optional[float] = None
+        self.closed_at: Optional[float] = None  # when the server asked to close (close()/abort()), not when the peer broke the connection
+        self.torn_down_at: Optional[float] = None
         self.lost = False
         self.eof_written = False
         self.write_fail_at: Optional[int] = None
@@ -241,13 +242,17 @@ class FakeTransport(asyncio.Transport):
         return self.protocol
 
     def close(self) -> None:
+        if self.closed_at is None:
+            self.closed_at = self.loop.time()
         if self.closing:
             return
         self.closing = True
-        self.closed_at = self.loop.time()
+        self.torn_down_at = self.loop.time()
         self.loop.call_soon(self._call_connection_lost, None)
 
     def abort(self) -> None:
+        if self.closed_at is None:
+            self.closed_at = self.loop.time()
         self._fatal(None)
 
     def _fatal(self, exc) -> None:
@@ -255,7 +260,7 @@ class FakeTransport(asyncio.Transport):
             return
         if not self.closing:
             self.closing = True
-            self.closed_at = self.loop.time()
+            self.torn_down_at = self.loop.time()
         self.loop.call_soon(self._call_connection_lost, exc)
 
     def _call_connection_lost(self, exc) -> None:
